@@ -55,6 +55,15 @@ def main():
         arrs[0] = arrs[0].astype(np.float32)
     elif form == "fortran_2d_slice":
         arrs = [np.asfortranarray(np.vstack([a, a]))[0] for a in arrs]
+    elif form == "mmap_readonly":      # genuinely read-only pages (np.load(..., mmap_mode='r')): writing into them is a segmentation fault
+        import tempfile, os
+        d = tempfile.mkdtemp(prefix="c06mm", dir=os.path.dirname(sys.argv[1]))
+        loaded = []
+        for i, a in enumerate(arrs):
+            f = os.path.join(d, "a%d.npy" % i)
+            np.save(f, a)
+            loaded.append(np.load(f, mmap_mode="r"))
+        arrs = loaded
     elif form == "readonly":
         for a in arrs:
             a.flags.writeable = False
